@@ -589,7 +589,7 @@ def _alarm(signum, frame):
     raise LexTimeout()
 
 
-def lex_time(text, repeat=5, warm_limit=120.0, run_limit=20.0, stop_at_error=False):
+def _lex_time_local(text, repeat=5, warm_limit=120.0, run_limit=20.0, stop_at_error=False):
     """Stand-alone lexer over `text` with a non-raising error callback: one
     untimed warm-up run, then the best time of `repeat` runs.
     -> (seconds, tokens, errors) or ('timeout', phase, limit).  The only place
@@ -681,10 +681,10 @@ REPEATABLE = {
     "designator_chain": ("struct s v = { ", lambda i: ".m[0]", "", " = 1 };"),
     "call_args": ("void f(void){ g(", lambda i: f"{i}", ", ", "); }"),
     "string_concat": ("char *s = ", lambda i: '"ab"', " ", ";"),
-    "string_concat_long_pieces": ("char *s = ", lambda i: '"' + "x" * 1022 + '"', " ", ";"),
+    "string_concat_long_pieces": ("char *s = ", lambda i: '"' + "x" * 2046 + '"', " ", ";"),
     "string_concat_mixed_prefix_long_pieces": (
-        "int *s = ", lambda i: ('L"' if i % 2 else '"') + "x" * 1020 + '"', "\n", ";"),
-    "string_concat_as_call_argument": ("void f(void){ g(", lambda i: '"' + "y" * 510 + '"', " ", "); }"),
+        "int *s = ", lambda i: ('L"' if i % 2 else '"') + "x" * 2044 + '"', "\n", ";"),
+    "string_concat_as_call_argument": ("void f(void){ g(", lambda i: '"' + "y" * 2046 + '"', " ", "); }"),
     "wstring_concat": ("int *s = ", lambda i: 'L"ab"', " ", ";"),
     "params": ("void f(", lambda i: f"int p{i}", ", ", ");"),
     "params_abstract": ("void f(", lambda i: "char *", ", ", ");"),
@@ -1219,7 +1219,7 @@ def run_text(name, n, embedded):
     return f"int x = {t};\n" if embedded else t
 
 
-def parse_time(text, repeat=3, warm_limit=120.0, run_limit=20.0):
+def _parse_time_local(text, repeat=3, warm_limit=120.0, run_limit=20.0):
     """CPU/wall time of CParser().parse(text) (a ParseError is an outcome, not
     a failure): warm-up + best of `repeat`, with the watchdog.
     -> (seconds, 1 if accepted else 0, 0 if accepted else 1) | ('timeout', ..)."""
@@ -1467,7 +1467,7 @@ def escape_families(tier):
     return out
 
 
-def lex_time_small(text, repeat=3, limit=4.0, stop_at_error=False):
+def _lex_time_small_local(text, repeat=3, limit=4.0, stop_at_error=False):
     """Like lex_time for inputs of a few hundred characters: the warm-up run is
     timed too (no memory effects at this size) and the watchdog is short.
     -> (seconds, tokens, errors) | ('timeout', 'run', limit)."""
@@ -1494,7 +1494,115 @@ def lex_time_small(text, repeat=3, limit=4.0, stop_at_error=False):
         signal.signal(signal.SIGALRM, old)
 
 
-if __name__ == "__main__":  # --selfcheck: the measure is a function of the text
+# ---------------------------------------------------------------------------
+# the time server: every timing runs in a child interpreter started with
+# PYTHONMALLOC=malloc, where tune_malloc() makes glibc keep freed memory.  A
+# timed run then re-uses the pages its warm-up run touched.  In the parent
+# (pymalloc) the arenas of a freed AST go back to the kernel and are touched
+# afresh in every run, and on this VM first-touching a page costs 0.1-0.5 ms
+# charged as *user* time: parsing 8192 declarations measured 0.5 s or 2.5 s
+# depending on the load, 10-14 x its time at 2048 - with the server 3.9 x, and
+# zero page faults.  One server per (pool worker) process, talking JSON lines
+# over pipes; it imports pycparser from the same tree as its parent.
+# ---------------------------------------------------------------------------
+_SERVER = None  # (pid of the owner, Popen)
+
+
+def _server():
+    global _SERVER
+    import subprocess
+
+    if _SERVER is not None and _SERVER[0] == os.getpid() and _SERVER[1].poll() is None:
+        return _SERVER[1]
+    env = dict(os.environ, PYTHONMALLOC="malloc", VERIF_TIME_SERVER="1", PYTHONHASHSEED="0",
+               PYTHONDONTWRITEBYTECODE="1", VERIF_TIME_SERVER_REPO=os.path.dirname(_pkg_dir()))
+    proc = subprocess.Popen([sys.executable, os.path.abspath(__file__), "--time-server"],
+                            stdin=subprocess.PIPE, stdout=subprocess.PIPE, text=True, env=env)
+    _SERVER = (os.getpid(), proc)
+    import atexit
+
+    atexit.register(_stop_server)
+    return proc
+
+
+def _stop_server():
+    global _SERVER
+    if _SERVER is not None and _SERVER[0] == os.getpid():
+        try:
+            _SERVER[1].stdin.close()
+            _SERVER[1].wait(timeout=5)
+        except Exception:  # noqa
+            _SERVER[1].kill()
+    _SERVER = None
+
+
+def _remote(fn, text, kw):
+    import json
+
+    if os.environ.get("VERIF_TIME_SERVER") == "1" or os.environ.get("VERIF_TIME_SERVER") == "off":
+        return _LOCAL[fn](text, **kw)
+    for attempt in (0, 1):
+        proc = _server()
+        try:
+            proc.stdin.write(json.dumps([fn, text, kw]) + "\n")
+            proc.stdin.flush()
+            line = proc.stdout.readline()
+        except (BrokenPipeError, OSError):
+            line = ""
+        if line:
+            return tuple(json.loads(line))
+        _stop_server()  # died: once more with a fresh one
+    return ("timeout", "time server died twice", 0)
+
+
+def lex_time(text, repeat=5, warm_limit=120.0, run_limit=20.0, stop_at_error=False):
+    """See _lex_time_local; runs in the time server."""
+    return _remote("lex_time", text, dict(repeat=repeat, warm_limit=warm_limit, run_limit=run_limit,
+                                          stop_at_error=stop_at_error))
+
+
+def lex_time_small(text, repeat=3, limit=4.0, stop_at_error=False):
+    """See _lex_time_small_local; runs in the time server."""
+    return _remote("lex_time_small", text, dict(repeat=repeat, limit=limit, stop_at_error=stop_at_error))
+
+
+def parse_time(text, repeat=3, warm_limit=120.0, run_limit=20.0):
+    """See _parse_time_local; runs in the time server.  A RecursionError in the
+    server comes back as ('timeout', 'recursion limit', 0)."""
+    return _remote("parse_time", text, dict(repeat=repeat, warm_limit=warm_limit, run_limit=run_limit))
+
+
+_LOCAL = {"lex_time": _lex_time_local, "lex_time_small": _lex_time_small_local,
+          "parse_time": _parse_time_local}
+
+
+def _serve():
+    import json
+
+    repo = os.environ["VERIF_TIME_SERVER_REPO"]
+    sys.path.insert(0, repo)
+    import pycparser
+
+    assert os.path.realpath(os.path.dirname(pycparser.__file__)) == os.path.realpath(
+        os.path.join(repo, "pycparser")), pycparser.__file__
+    sys.setrecursionlimit(RECURSION_LIMIT)
+    tune_malloc()
+    out = sys.stdout
+    for line in sys.stdin:
+        fn, text, kw = json.loads(line)
+        try:
+            res = _LOCAL[fn](text, **kw)
+        except RecursionError:
+            res = ("timeout", "recursion limit", 0)
+        out.write(json.dumps(list(res)) + "\n")
+        out.flush()
+
+
+if __name__ == "__main__":
+    if "--time-server" in sys.argv:
+        _serve()
+        sys.exit(0)
+    # --selfcheck: the measure is a function of the text
     sys.path.insert(0, os.environ.get("VERIF_REPO", "/repo"))
     for _t in ("int x;", nest_text(["paren"] * 8), nest_text(["cast", "struct_nest"] * 4),
                repeat_text("stmt_switch", 16)):
@@ -1502,4 +1610,5 @@ if __name__ == "__main__":  # --selfcheck: the measure is a function of the text
         _c = measure(_t, method="setprofile")
         assert _a == _b == _c and _a[0] == "ok", (_t, _a, _b, _c)
         print(_a[1], _t[:70])
+    print(lex_time("int x = 0x1p3;", repeat=2), parse_time("int x;", repeat=2))
     print("selfcheck ok")
